@@ -126,11 +126,14 @@ class PList:
 
 
 class PDict:
-    __slots__ = ("d", "serial")
+    """dict: concrete hashable keys live in `d`; keys with symbolic content (text, ints) live in `sym` as [key, value]
+    pairs and are found by (forking) equality, which is what hashing + == amounts to"""
+    __slots__ = ("d", "serial", "sym")
 
     def __init__(self, d=None, serial=0):
         self.d = dict(d or {})
         self.serial = serial
+        self.sym = []
 
 
 class CondDef:
